@@ -440,34 +440,230 @@ func runLockGuard(c *core.Ctx) {
 			c.OK(g.props, g.fn, construct, g.pos, fmt.Sprintf("%d access(es), lock held: %s", g.n, strings.Join(ms, "/")))
 		}
 	}
-	// lock order: while holding an exclusive module lock no second module mutex is acquired
+	// lock order and re-entry, decided at the call sites that are reached WHILE a lock
+	// is held (forward may-hold dataflow; a deferred unlock holds until the return):
+	//  - holding an exclusive lock, no callee may acquire any module mutex;
+	//  - holding a lock in any mode, no callee may acquire the SAME mutex again (an
+	//    RLock nested in an RLock deadlocks as soon as a writer queues in between).
+	acq := lockSummaries(c)
 	for _, fn := range libFuncs(c) {
-		holdsExclusive := false
-		an.Instrs(fn, func(in ssa.Instruction) {
-			if call, ok := in.(*ssa.Call); ok {
-				if n := an.CalleeName(&call.Call); n == "(*sync.RWMutex).Lock" || n == "(*sync.Mutex).Lock" {
-					holdsExclusive = true
-				}
-			}
-		})
-		if !holdsExclusive {
+		held := heldAtCalls(fn)
+		if len(held) == 0 {
 			continue
 		}
-		var second []string
-		for _, g := range an.RefClosure([]*ssa.Function{fn}, P.InModule) {
-			if g == fn {
+		var second, again []string
+		for _, hc := range held {
+			g := an.StaticCallee(&hc.call.Call)
+			if g == nil || !P.InModule(g) {
 				continue
 			}
-			an.Instrs(g, func(in ssa.Instruction) {
-				if call, ok := in.(*ssa.Call); ok {
-					if n := an.CalleeName(&call.Call); strings.HasPrefix(n, "(*sync.") && strings.Contains(n, "Lock") && !strings.Contains(n, "Unlock") {
-						second = append(second, fname(c, g))
+			for _, a := range acq[g] {
+				mp := a.in(hc.call)
+				same := false
+				for _, h := range hc.locks {
+					if h.path == mp {
+						same = true
+					}
+					if h.exclusive && !same {
+						second = append(second, fmt.Sprintf("%s acquires %s at %s while %s is held exclusively", fname(c, g), mp, P.Pos(hc.call.Pos()), h.path))
+					}
+				}
+				if same {
+					again = append(again, fmt.Sprintf("%s acquires %s again at %s", fname(c, g), mp, P.Pos(hc.call.Pos())))
+				}
+			}
+		}
+		c.Check(len(second) == 0, []string{"C15"}, fname(c, fn), "lock-order", P.Pos(fn.Pos()), "no second module mutex is acquired while the exclusive lock is held", "acquires another mutex while holding an exclusive lock ("+strings.Join(second, "; ")+"): lock-order inversion can deadlock")
+		c.Check(len(again) == 0, []string{"C15", "C13"}, fname(c, fn), "lock-reentry", P.Pos(fn.Pos()), "no callee re-acquires a mutex the caller already holds", "a mutex is acquired again while it is already held ("+strings.Join(again, "; ")+"): sync mutexes are not re-entrant — a nested RLock blocks for ever once a writer waits, and no context cancellation ends it")
+	}
+}
+
+type heldLock struct {
+	path      string
+	exclusive bool
+}
+
+type heldCall struct {
+	call  *ssa.Call
+	locks []heldLock
+}
+
+func lockOp(call *ssa.CallCommon) (op string, ok bool) {
+	n := an.CalleeName(call)
+	for _, m := range []string{"Lock", "RLock", "Unlock", "RUnlock"} {
+		if n == "(*sync.RWMutex)."+m || n == "(*sync.Mutex)."+m {
+			return m, true
+		}
+	}
+	return "", false
+}
+
+// heldAtCalls: the calls of fn that may execute while fn holds a sync mutex,
+// with the mutexes (by access path) held there.
+func heldAtCalls(fn *ssa.Function) []heldCall {
+	if len(fn.Blocks) == 0 {
+		return nil
+	}
+	type state map[string]bool // mutex path -> exclusive
+	in := map[*ssa.BasicBlock]state{fn.Blocks[0]: {}}
+	clone := func(s state) state {
+		o := state{}
+		for k, v := range s {
+			o[k] = v
+		}
+		return o
+	}
+	var out map[*ssa.Call][]heldLock
+	for iter := 0; iter < 2; iter++ {
+		out = map[*ssa.Call][]heldLock{}
+		work := []*ssa.BasicBlock{fn.Blocks[0]}
+		seen := map[*ssa.BasicBlock]int{}
+		for len(work) > 0 {
+			b := work[0]
+			work = work[1:]
+			if seen[b] > 8 {
+				continue
+			}
+			seen[b]++
+			st := clone(in[b])
+			for _, ins := range b.Instrs {
+				call, ok := ins.(*ssa.Call)
+				if !ok {
+					continue
+				}
+				if op, isLock := lockOp(&call.Call); isLock {
+					mp := an.PathOf(call.Call.Args[0])
+					switch op {
+					case "Lock":
+						st[mp] = true
+					case "RLock":
+						if _, has := st[mp]; !has {
+							st[mp] = false
+						}
+					default:
+						delete(st, mp)
+					}
+					continue
+				}
+				if len(st) > 0 {
+					var hl []heldLock
+					for k, v := range st {
+						hl = append(hl, heldLock{k, v})
+					}
+					sort.Slice(hl, func(i, j int) bool { return hl[i].path < hl[j].path })
+					out[call] = hl
+				}
+			}
+			for i, s := range b.Succs {
+				if an.DeadEdge(b, i) {
+					continue
+				}
+				old, had := in[s]
+				merged := clone(old)
+				changed := !had
+				for k, v := range st {
+					if ov, ok := merged[k]; !ok || (v && !ov) {
+						merged[k] = v || ov
+						changed = true
+					}
+				}
+				if changed {
+					in[s] = merged
+					work = append(work, s)
+				}
+			}
+		}
+	}
+	var res []heldCall
+	for call, hl := range out {
+		res = append(res, heldCall{call, hl})
+	}
+	sort.Slice(res, func(i, j int) bool { return res[i].call.Pos() < res[j].call.Pos() })
+	return res
+}
+
+// acquisition: a mutex a function acquires (itself or through callees),
+// named by the parameter it is reached from.
+type acquisition struct {
+	param int    // index into Params (0 = receiver)
+	rest  string // field chain below the parameter (".mu")
+}
+
+func (a acquisition) in(call *ssa.Call) string {
+	if a.param < len(call.Call.Args) {
+		return an.PathOf(call.Call.Args[a.param]) + a.rest
+	}
+	return "?" + a.rest
+}
+
+// lockSummaries: for every module function, the mutexes it may acquire in
+// terms of its parameters (transitively through static module callees).
+func lockSummaries(c *core.Ctx) map[*ssa.Function][]acquisition {
+	P := c.P
+	sum := map[*ssa.Function]map[acquisition]bool{}
+	rootOfPath := func(fn *ssa.Function, p string) (int, string, bool) {
+		for i, par := range fn.Params {
+			root := "p:" + par.Name()
+			if i == 0 && fn.Signature.Recv() != nil {
+				root = "recv"
+			}
+			if p == root || strings.HasPrefix(p, root+".") {
+				return i, strings.TrimPrefix(p, root), true
+			}
+		}
+		return 0, "", false
+	}
+	fns := P.ModFuncs
+	for _, fn := range fns {
+		sum[fn] = map[acquisition]bool{}
+	}
+	for round := 0; round < 6; round++ {
+		changed := false
+		for _, fn := range fns {
+			an.Instrs(fn, func(in ssa.Instruction) {
+				call, ok := in.(*ssa.Call)
+				if !ok {
+					return
+				}
+				add := func(p string) {
+					if i, rest, ok := rootOfPath(fn, p); ok {
+						a := acquisition{i, rest}
+						if !sum[fn][a] {
+							sum[fn][a] = true
+							changed = true
+						}
+					}
+				}
+				if op, isLock := lockOp(&call.Call); isLock {
+					if op == "Lock" || op == "RLock" {
+						add(an.PathOf(call.Call.Args[0]))
+					}
+					return
+				}
+				if g := an.StaticCallee(&call.Call); g != nil && sum[g] != nil && g != fn {
+					for a := range sum[g] {
+						add(a.in(call))
 					}
 				}
 			})
 		}
-		c.Check(len(second) == 0, []string{"C15"}, fname(c, fn), "lock-order", P.Pos(fn.Pos()), "no second module mutex is acquired while the exclusive lock is held", "acquires another mutex while holding an exclusive lock (via "+strings.Join(second, ", ")+"): lock-order inversion can deadlock")
+		if !changed {
+			break
+		}
 	}
+	out := map[*ssa.Function][]acquisition{}
+	for fn, m := range sum {
+		for a := range m {
+			out[fn] = append(out[fn], a)
+		}
+		sort.Slice(out[fn], func(i, j int) bool {
+			if out[fn][i].param != out[fn][j].param {
+				return out[fn][i].param < out[fn][j].param
+			}
+			return out[fn][i].rest < out[fn][j].rest
+		})
+	}
+	return out
 }
 
 func runLockEscape(c *core.Ctx) {
